@@ -1,1 +1,269 @@
-pub fn main(_args: &[String]) { eprintln!("conc: not built yet"); }
+// conc.rs -- K6/K7: replays, on the real library, the schedule chosen by the concurrent Coq model.
+//   hx conc <casefile> <model-output>
+// Worker threads park at every `verif::point`; the scheduler releases one thread per step, in the
+// order of the model's `S <i> t<tid> <from> -> <to> ...` lines, and prints its own lines in the
+// same format (lock bits from verif::lock_state, cas listing, index and intents when unlocked).
+use std::cell::Cell;
+use std::collections::{HashMap, HashSet};
+use std::num::NonZeroU64;
+use std::path::{Path, PathBuf};
+use std::sync::{Arc, Condvar, Mutex};
+use std::time::{Duration, Instant};
+
+use cassadilia::{Cas, Config, OrphanStats, SyncMode};
+
+use crate::canon::*;
+
+struct SState { parked: HashMap<usize, String>, go: HashSet<usize>, results: Vec<(usize, usize, String)>, shutdown: bool }
+struct Sched { st: Mutex<SState>, cv: Condvar }
+thread_local! { static TID: Cell<Option<usize>> = const { Cell::new(None) }; }
+static CUR: Mutex<Option<Arc<Sched>>> = Mutex::new(None);
+
+fn park(s: &Sched, t: usize, name: &str) {
+    let mut g = s.st.lock().unwrap();
+    if g.shutdown { return; }
+    g.parked.insert(t, name.to_string());
+    s.cv.notify_all();
+    loop {
+        if g.go.remove(&t) || g.shutdown { break; }
+        g = s.cv.wait(g).unwrap();
+    }
+}
+fn hook(name: &'static str) {
+    if let Some(t) = TID.with(|c| c.get()) {
+        let s = CUR.lock().unwrap().clone();
+        if let Some(s) = s { park(&s, t, name); }
+    }
+}
+
+type K = Vec<u8>;
+fn bound(s: &str) -> std::ops::Bound<K> {
+    if s == "U" { std::ops::Bound::Unbounded } else if let Some(h) = s.strip_prefix("I:") { std::ops::Bound::Included(parse_chunk(h)) } else { std::ops::Bound::Excluded(parse_chunk(&s[2..])) }
+}
+fn do_call(cas: &Cas<K>, stats: &Option<Arc<OrphanStats<K>>>, t: &[String]) -> String {
+    let r = std::panic::catch_unwind(std::panic::AssertUnwindSafe(|| -> String {
+        let e = |e: cassadilia::LibError| format!("err:{}", classify(&format!("{e:?}")));
+        match t[0].as_str() {
+            "put" | "abort" => {
+                let content: Vec<u8> = parse_chunks(t.get(2).map(String::as_str).unwrap_or("")).concat();
+                match cas.put(parse_chunk(&t[1])) {
+                    Err(x) => e(x),
+                    Ok(mut tx) => {
+                        if tx.write(&content).is_err() { return "err:io.StageWrite".into(); }
+                        if t[0] == "put" { match tx.finish() { Ok(()) => "ok".into(), Err(x) => e(x) } } else { drop(tx); "ok".into() }
+                    }
+                }
+            }
+            "remove" => match cas.remove(&parse_chunk(&t[1])) { Ok(b) => format!("ok:{b}"), Err(x) => e(x) },
+            "remove_range" => match cas.remove_range((bound(&t[1]), bound(&t[2]))) { Ok(n) => format!("ok:{n}"), Err(x) => e(x) },
+            "get" => match cas.get(&parse_chunk(&t[1])) { Ok(Some(b)) => format!("bytes:{}", show_content(&b)), Ok(None) => "none".into(), Err(x) => e(x) },
+            "size" => match cas.get_size(&parse_chunk(&t[1])) { Ok(Some(n)) => format!("size:{n}"), Ok(None) => "none".into(), Err(x) => e(x) },
+            "checkpoint" => match cas.checkpoint() { Ok(()) => "ok".into(), Err(x) => e(x) },
+            "delorphans" => match stats.as_ref().map(|s| s.delete_orphans()) {
+                Some(Ok(r)) => format!("orphans:del={},skip={}", r.orphans_deleted, r.orphans_skipped),
+                Some(Err(x)) => e(x), None => "orphans:del=0,skip=0".into() },
+            o => panic!("bad conc call {o}"),
+        }
+    }));
+    r.unwrap_or_else(|_| "err:panic".into())
+}
+
+fn cas_listing(root: &Path) -> String {
+    let mut v = vec![];
+    fn walk(d: &Path, pre: &str, v: &mut Vec<String>) {
+        if let Ok(rd) = std::fs::read_dir(d) { for e in rd.flatten() {
+            let n = e.file_name().to_str().unwrap().to_string();
+            if e.file_type().unwrap().is_dir() { walk(&e.path(), &format!("{pre}{n}"), v); } else { v.push(format!("{pre}{n}")); }
+        } }
+    }
+    walk(&root.join("cas"), "", &mut v);
+    v.sort();
+    v.join(",")
+}
+fn state_line(cas: &Cas<K>, root: &Path) -> String {
+    let bits = cassadilia::verif::lock_state(cas.as_arc());
+    let (li, ls) = (bits & 1 != 0, bits & 2 != 0);
+    let idx = if !ls {
+        let g = cas.read_index_state();
+        format!("[{}]", g.iter().map(|(k, it)| format!("{}={}:{}", hex(k), hex(it.blob_hash.as_bytes()), it.blob_size)).collect::<Vec<_>>().join(";"))
+    } else { "-".into() };
+    let intents = if !li {
+        let mut v = cassadilia::verif::pending_intents(cas.as_arc());
+        v.sort();
+        format!("[{}]", v.iter().map(|(k, h)| format!("{}={}", hex(k), hex(h.as_bytes()))).collect::<Vec<_>>().join(";"))
+    } else { "-".into() };
+    format!("I={} S={} cas=[{}] idx={} intents={}", if li { "*" } else { "-" }, if ls { "*" } else { "-" }, cas_listing(root), idx, intents)
+}
+
+struct CCase { name: String, lines: Vec<String> }
+fn parse_conc(path: &str) -> Vec<CCase> {
+    let mut out = vec![]; let mut cur: Option<CCase> = None;
+    for l in std::fs::read_to_string(path).unwrap().lines() {
+        let l = l.trim();
+        if let Some(n) = l.strip_prefix("conc ") { if let Some(c) = cur.take() { out.push(c); } cur = Some(CCase { name: n.to_string(), lines: vec![] }); }
+        else if l == "end" { if let Some(c) = cur.take() { out.push(c); } }
+        else if let Some(c) = cur.as_mut() { if !l.is_empty() { c.lines.push(l.to_string()); } }
+    }
+    if let Some(c) = cur.take() { out.push(c); }
+    out
+}
+
+fn run_one(case: &CCase, sched_lines: &[String], free_seed: Option<u64>) -> Vec<String> {
+    let mut out = vec![format!("CASE {}", case.name)];
+    let base = if Path::new("/dev/shm").is_dir() { PathBuf::from("/dev/shm") } else { std::env::temp_dir() };
+    let base = std::env::var("HX_TMP").map(PathBuf::from).unwrap_or(base);
+    let td = tempfile::Builder::new().prefix("hxc").tempdir_in(base).unwrap();
+    let root = td.path().join("db");
+    std::fs::create_dir_all(root.join("cas")).unwrap();
+    let mut n = 10000u64;
+    let mut setup: Vec<Vec<String>> = vec![];
+    let mut threads: Vec<(usize, Vec<Vec<String>>)> = vec![];
+    for l in &case.lines {
+        let t: Vec<String> = l.split_whitespace().map(String::from).collect();
+        match t[0].as_str() {
+            "cfg" => for kv in &t[1..] { if let Some(v) = kv.strip_prefix("n=") { n = v.parse().unwrap(); } },
+            "orphan" => {
+                let data = parse_chunk(&t[1]);
+                let hx = hex(blake3::hash(&data).as_bytes());
+                let p = root.join("cas").join(&hx[0..2]).join(&hx[2..4]);
+                std::fs::create_dir_all(&p).unwrap();
+                std::fs::write(p.join(&hx[4..]), &data).unwrap();
+            }
+            "setup" => setup.push(t[1..].to_vec()),
+            "thread" => { let id: usize = t[1].parse().unwrap();
+                if let Some(e) = threads.iter_mut().find(|(u, _)| *u == id) { e.1.push(t[2..].to_vec()); } else { threads.push((id, vec![t[2..].to_vec()])); } }
+            _ => {}
+        }
+    }
+    let conf = Config { sync_mode: SyncMode::Sync, num_ops_per_wal: NonZeroU64::new(n).unwrap(), pre_create_cas_dirs: false,
+                        scan_orphans_on_startup: true, verify_blob_integrity: false, fail_on_integrity_errors: false };
+    let (cas, stats) = match Cas::<K>::open_with_recover(&root, conf) { Ok(x) => x, Err(e) => { out.push(format!("X open failed {e:?}")); return out; } };
+    let stats = stats.map(|mut s| { s.orphaned_blobs.sort(); Arc::new(s) });
+    for c in &setup { do_call(&cas, &stats, c); }
+    let sched = Arc::new(Sched { st: Mutex::new(SState { parked: HashMap::new(), go: HashSet::new(), results: vec![], shutdown: false }), cv: Condvar::new() });
+    *CUR.lock().unwrap() = Some(sched.clone());
+    let mut handles = vec![];
+    for (id, calls) in threads.clone() {
+        let (cas2, stats2, s2) = (cas.clone(), stats.clone(), sched.clone());
+        handles.push(std::thread::spawn(move || {
+            TID.with(|c| c.set(Some(id)));
+            for (ci, call) in calls.iter().enumerate() {
+                park(&s2, id, "start");
+                let r = do_call(&cas2, &stats2, call);
+                s2.st.lock().unwrap().results.push((id, ci, r));
+            }
+            park(&s2, id, "end");
+        }));
+    }
+    let wait_parked = |t: usize, secs: u64| -> Option<String> {
+        let start = Instant::now();
+        let mut g = sched.st.lock().unwrap();
+        loop {
+            if let Some(n) = g.parked.get(&t) { return Some(n.clone()); }
+            if start.elapsed() > Duration::from_secs(secs) { return None; }
+            let (g2, _) = sched.cv.wait_timeout(g, Duration::from_millis(50)).unwrap();
+            g = g2;
+        }
+    };
+    // all workers reach their first park point
+    for (id, _) in &threads { if wait_parked(*id, 10).is_none() { out.push(format!("X thread {id} never started")); } }
+    out.push(format!("S init {}", state_line(&cas, &root)));
+    let mut reported = 0usize;
+    if let Some(seed) = free_seed {
+        // model-free exploration: a random parked thread whose next lock (read off the point's name)
+        // is free according to the real lock bits is released; a thread that does not come back
+        // within 300 ms is blocked inside the library and is left alone
+        let mut rng = seed.wrapping_mul(6364136223846793005).wrapping_add(1442695040888963407);
+        let mut step = 0usize;
+        let mut idle_rounds = 0;
+        while step < 400 && idle_rounds < 40 {
+            let bits = cassadilia::verif::lock_state(cas.as_arc());
+            let cands: Vec<(usize, String)> = {
+                let g = sched.st.lock().unwrap();
+                let mut v: Vec<(usize, String)> = g.parked.iter().filter(|(_, n)| n.as_str() != "end").map(|(t, n)| (*t, n.clone())).collect();
+                v.sort();
+                v.into_iter().filter(|(_, n)| {
+                    if n.ends_with("lock_I") { bits & 1 == 0 } else if n == "read.lock_S" { bits & 4 == 0 } else if n.ends_with("lock_S") { bits & 2 == 0 } else if n.ends_with("lock_W") { bits & 8 == 0 } else { true }
+                }).collect()
+            };
+            if cands.is_empty() {
+                let g = sched.st.lock().unwrap();
+                if g.parked.len() == threads.len() && g.parked.values().all(|n| n == "end") { break; }
+                drop(g);
+                idle_rounds += 1;
+                std::thread::sleep(Duration::from_millis(25));
+                continue;
+            }
+            rng = rng.wrapping_mul(6364136223846793005).wrapping_add(1442695040888963407);
+            let (tid, from) = cands[((rng >> 33) as usize) % cands.len()].clone();
+            { let mut g = sched.st.lock().unwrap(); g.parked.remove(&tid); g.go.insert(tid); sched.cv.notify_all(); }
+            let start = Instant::now();
+            let mut to = None;
+            while start.elapsed() < Duration::from_millis(300) {
+                if let Some(n) = sched.st.lock().unwrap().parked.get(&tid) { to = Some(n.clone()); break; }
+                std::thread::sleep(Duration::from_micros(200));
+            }
+            match to {
+                Some(to) => { out.push(format!("S {step} t{tid} {from} -> {to} {}", state_line(&cas, &root))); idle_rounds = 0; }
+                None => { out.push(format!("S {step} t{tid} {from} -> BLOCKED {}", state_line(&cas, &root))); idle_rounds += 1; }
+            }
+            let g = sched.st.lock().unwrap();
+            let mut news: Vec<&(usize, usize, String)> = g.results[reported..].iter().collect();
+            news.sort();
+            for (id, ci, r) in news { out.push(format!("F t{id} {ci} -> {r}")); }
+            reported = g.results.len();
+            step += 1;
+        }
+        let g = sched.st.lock().unwrap();
+        let done = g.parked.len() == threads.len() && g.parked.values().all(|n| n == "end");
+        if !done { out.push(format!("X not all calls returned: parked {:?}", g.parked)); }
+    }
+    for l in sched_lines {
+        let t: Vec<&str> = l.split_whitespace().collect();
+        if t.len() < 6 || t[0] != "S" || !t[2].starts_with('t') { continue; }
+        let step = t[1];
+        let tid: usize = t[2][1..].parse().unwrap();
+        let from = match wait_parked(tid, 4) { Some(f) => f, None => { out.push(format!("S {step} t{tid} DESYNC (thread not parked where the model expects it)")); break; } };
+        {
+            let mut g = sched.st.lock().unwrap();
+            g.parked.remove(&tid);
+            g.go.insert(tid);
+            sched.cv.notify_all();
+        }
+        let to = match wait_parked(tid, 4) { Some(x) => x, None => { out.push(format!("S {step} t{tid} {from} -> HANG (the thread did not reach its next scheduling point within 4 s)")); break; } };
+        out.push(format!("S {step} t{tid} {from} -> {to} {}", state_line(&cas, &root)));
+        let g = sched.st.lock().unwrap();
+        let mut news: Vec<&(usize, usize, String)> = g.results[reported..].iter().collect();
+        news.sort();
+        for (id, ci, r) in news { out.push(format!("F t{id} {ci} -> {r}")); }
+        reported = g.results.len();
+    }
+    // let every worker run to completion
+    { let mut g = sched.st.lock().unwrap(); g.shutdown = true; sched.cv.notify_all(); }
+    let deadline = Instant::now() + Duration::from_secs(10);
+    for h in handles { while !h.is_finished() && Instant::now() < deadline { std::thread::sleep(Duration::from_millis(5)); } if !h.is_finished() { out.push("X worker still blocked after the schedule ended".into()); } }
+    *CUR.lock().unwrap() = None;
+    out
+}
+
+pub fn main(args: &[String]) {
+    std::panic::set_hook(Box::new(|_| {}));
+    cassadilia::verif::set_point_hook(Box::new(hook));
+    let cases = parse_conc(&args[0]);
+    let free_seed: Option<u64> = args.get(1).and_then(|a| a.strip_prefix("free:")).map(|x| x.parse().unwrap());
+    let model = if free_seed.is_some() { String::new() } else { std::fs::read_to_string(&args[1]).unwrap() };
+    let mut by: HashMap<String, Vec<String>> = HashMap::new();
+    let mut cur = String::new();
+    for l in model.lines() {
+        if let Some(n) = l.strip_prefix("CASE ") { cur = n.to_string(); }
+        else { by.entry(cur.clone()).or_default().push(l.to_string()); }
+    }
+    for c in &cases {
+        let sl = by.get(&c.name).cloned().unwrap_or_default();
+        // each case in its own process: a hung worker must not poison the next case
+        let outp = std::env::temp_dir().join(format!("hxc-{}-{}", std::process::id(), c.name));
+        let r = crate::cases::in_child(120, || { let lines = run_one(c, &sl, free_seed); std::fs::write(&outp, lines.join("\n") + "\n").unwrap(); 0 });
+        match r { Some(_) => { if let Ok(s) = std::fs::read_to_string(&outp) { print!("{s}"); } } None => println!("CASE {}\nX hang", c.name) }
+        let _ = std::fs::remove_file(&outp);
+    }
+}
